@@ -46,6 +46,7 @@ class D:
 
         self.draw = draw
         self.rng = random.Random(draw(st.integers(0, 2**32 - 1)))
+        self.clean = self.rng.random() < 0.35  # avoid every feature that triggers a recorded defect
         if self.rng.random() < 0.15:
             self.rng = None
 
@@ -148,7 +149,8 @@ def gen_field_kwargs(d, backend, kind, *, allow_alias, used_names, style):
                 fk.pop("default", None)
                 fk.pop("unique", None)
         else:
-            pool = [a for a in ALIASES if a not in used_names and (backend == "pandas" or isinstance(a, str))]
+            pool = [a for a in ALIASES if a not in used_names and (backend == "pandas" or isinstance(a, str))
+                    and (isinstance(a, str) or not d.clean)]
             if pool:
                 fk["alias"] = d.choice(pool)
     if style == "index":
@@ -215,7 +217,8 @@ def gen_check(d, spec, ci, eff, meth, *, dangling=False):
         for f in chosen:
             own = next((x for x in spec["classes"][ci]["fields"] if x["attr"] == f["attr"] and x["field"] is not None), None)
             r = d.int(0, 9)
-            if own is not None and f["field_cls"] == ci and r < 3:
+            if own is not None and f["field_cls"] == ci and r < 3 and not (
+                    d.clean and any(isinstance(t, dict) and "ref" in t for t in m["targets"])):
                 m["targets"].append({"ref": f["attr"]})
             elif f["field_cls"] != ci and f["ann_cls"] != ci and r < 2:
                 m["targets"].append({"pref": [f["field_cls"], f["attr"]]})
@@ -233,7 +236,7 @@ def gen_check(d, spec, ci, eff, meth, *, dangling=False):
         m["k"] = d.choice(["c", "b", "", "bb"])
     else:
         m["op"], m["k"] = "ne", d.int(0, 5)
-    if d.p(0.12):
+    if d.p(0.06) and not d.clean:
         m["name"] = d.choice(["nm0", "nm1"])
     kw = {}
     if backend == "pandas" and d.p(0.12):
@@ -270,7 +273,7 @@ def gen_methods(d, spec, ci, eff, inherited_methods):
         m = {"meth": "dk0", "kind": "dfcheck", "op": "le", "k": d.int(2, 5), "name": None, "kw": {}}
         if d.p(0.3):
             m["op"], m["k"] = "ne", d.int(0, 3)
-        if d.p(0.12):
+        if d.p(0.06) and not d.clean:
             m["name"] = d.choice(["nm2", "nm0"])
         if d.p(0.1):
             m["kw"] = {"raise_warning": True}
@@ -280,16 +283,16 @@ def gen_methods(d, spec, ci, eff, inherited_methods):
         if num and d.p(0.25):
             for _ in range(d.int(1, 2)):
                 tg = d.subset(num, 1, 2)
-                m = {"meth": d.choice(["pr0", "pr1", "pr2"]), "kind": "parser", "targets": [f["name"] for f in tg],
+                m = {"meth": d.choice([f"pr{ci}", f"pq{ci}"] if d.clean else ["pr0", "pr1", "pr2"]), "kind": "parser", "targets": [f["name"] for f in tg],
                      "regex": False, "name": None, "k": d.int(1, 3), "kw": {}}
-                if d.p(0.1):
+                if d.p(0.1) and not d.clean:
                     m["name"] = "pn0"
                 add(m)
         if d.p(0.08):
-            add({"meth": "dp0", "kind": "dfparser", "k": d.int(1, 4), "name": None, "kw": {}})
+            add({"meth": f"dp{ci}" if d.clean else "dp0", "kind": "dfparser", "k": d.int(1, 4), "name": None, "kw": {}})
     # override an inherited method by something of another kind (plain method / other decorator)
     cand = [n for n in inherited_methods if n not in used]
-    if cand and d.p(0.06):
+    if cand and d.p(0.06) and not d.clean:
         n = d.choice(cand)
         old = inherited_methods[n][0]["kind"]
         new = d.choice([k for k in ("plain", "dfcheck", "check") if k != old and (k != "check" or fields)])
@@ -323,7 +326,7 @@ def gen_config(d, spec, ci, eff):
         opts["unique_column_names"] = True
     if d.p(0.15):
         opts["add_missing_columns"] = d.choice([True, True, False])
-    if d.p(0.12):
+    if d.p(0.04):  # rare: failing + drop_invalid_rows crashes the pandas backend on both sides (C06/C11)
         opts["drop_invalid_rows"] = d.choice([True, True, False])
     if d.p(0.08):
         opts["title"] = d.choice(["ST", "ST2"])
@@ -331,7 +334,7 @@ def gen_config(d, spec, ci, eff):
         opts["description"] = d.choice(["schema text", "sd"])
     if d.p(0.12):
         opts["name"] = d.choice(["nm_a", "nm_b"])
-    if d.p(0.05):
+    if d.p(0.05) and not d.clean:
         opts["metadata"] = d.choice([{"owner": "me"}, {"v": 2}])
     if d.p(0.04):
         opts["dtype"] = d.choice(["int", "float"] if backend == "pandas" else ["int", "pl.Int64"])
@@ -450,6 +453,8 @@ PL_PHYS_OF = {"int64": "Int64", "float64": "Float64", "object": "String"}
 def gen_table(d, spec, exp):
     backend = spec["backend"]
     n = d.choice([0, 1, 2, 2, 3, 3, 4])
+    if exp["opts"]["unique"] and n == 0:
+        n = 2  # joint uniqueness on an empty frame raises ValueError on both sides
     cols = []
     add_missing = exp["opts"]["add_missing_columns"]
     for c in exp["columns"]:
@@ -533,7 +538,7 @@ def gen_table(d, spec, exp):
 def build_case(draw, backend):
     d = D(draw)
     shape = d.choice(SHAPES)
-    series_case = backend == "pandas" and d.p(0.1)
+    series_case = backend == "pandas" and d.p(0.1) and not d.clean
     spec = {"backend": backend, "classes": []}
     all_aliases = []  # aliases are unique over the whole hierarchy (siblings meet again in a diamond / mixin)
     for ci, bases in enumerate(shape):
@@ -573,6 +578,7 @@ def build_case(draw, backend):
             cs["config"] = gen_config(d, spec, ci, eff)
     ncls = len(shape)
     case = dict(spec)
+    case["clean"] = bool(d.clean)
     case["target"] = ncls - 1 if d.p(0.7) else d.int(0, ncls - 1)
     case["incremental"] = d.p(0.3)
     case["order"] = d.perm(range(ncls)) if d.p(0.6) else list(range(ncls))
